@@ -33,6 +33,8 @@ def word_features(word_hex, ty):
         f.append('u23max')
     if (w & 0xff) == 0:
         f.append('ziglayer0')
+    if t52 == (1 << 51):
+        f.append('zigu0')    # ziggurat u == 0 exactly: StandardNormal returns 0.0
     return f
 
 
@@ -159,9 +161,9 @@ def judge(prop, tier, seed, cs, events, meta, t0):
                 continue
             feats = word_features(e['stream']['word'], c['ty']) if e['phase'] != 'random' else ['random']
             sig = {'fam': c['fam'], 'ty': c['ty'], 'kind': kind, 'phase': 'random' if e['phase'] == 'random' else 'single-word',
-                   'word_class': '+'.join(feats) if feats else 'other:' + e['stream']['class'].split(':')[0]}
+                   'feats': feats if feats else ['other:' + e['stream']['class'].split(':')[0]], 'params': c['p_human']}
             if e['value'] is not None:
-                sig['value'] = e['value'] if e['value'] in ('inf', '-inf', 'NaN') else None
+                sig['value'] = e['value'] if e['value'] in ('inf', '-inf', 'NaN') else 'finite'
             ver.add(sig, e)
         elif ev == 'hang':
             hangs.append(e)
